@@ -74,6 +74,8 @@ pub enum Op {
     Shrink,
     // stateless decoders
     Lossy(Vec<u8>),
+    /// the trait impls of `String` on the pair of texts (a, b), side by side with `std::string::String` (no model)
+    Glue(String, String),
     Utf8(Vec<u8>),
     Utf16(Vec<u16>),
 }
@@ -191,6 +193,7 @@ impl Op {
             Op::Reserve(_) => "s_reserve",
             Op::Shrink => "s_shrink",
             Op::Lossy(_) => "d_lossy",
+            Op::Glue(..) => "d_glue",
             Op::Utf8(_) => "d_utf8",
             Op::Utf16(_) => "d_utf16",
         }
@@ -199,7 +202,7 @@ impl Op {
         matches!(self, Op::New | Op::WithCap(_) | Op::FromStr(_) | Op::FromIter(_))
     }
     pub fn is_decoder(&self) -> bool {
-        matches!(self, Op::Lossy(_) | Op::Utf8(_) | Op::Utf16(_))
+        matches!(self, Op::Lossy(_) | Op::Utf8(_) | Op::Utf16(_) | Op::Glue(..))
     }
     pub fn to_text(&self) -> String {
         let n = self.name();
@@ -227,6 +230,7 @@ impl Op {
             Op::Format { t, n: v } => format!("{} t={} v={}", n, hexs(t.as_bytes()), v),
             Op::Reserve(c) => format!("{} n={}", n, c),
             Op::Lossy(b) => format!("{} b={}", n, hexs(b)),
+            Op::Glue(a, b) => format!("{} a={} b={}", n, hexs(a.as_bytes()), hexs(b.as_bytes())),
             Op::Utf8(b) => format!("{} b={}", n, hexs(b)),
             Op::Utf16(u) => format!("{} u={}", n, u16s(u)),
         }
@@ -278,6 +282,7 @@ impl Op {
             "s_reserve" => Op::Reserve(us("n")?),
             "s_shrink" => Op::Shrink,
             "d_lossy" => Op::Lossy(unhex(kv(&toks, "b")?)?),
+            "d_glue" => Op::Glue(tx("a")?, tx("b")?),
             "d_utf8" => Op::Utf8(unhex(kv(&toks, "b")?)?),
             "d_utf16" => Op::Utf16(unu16s(kv(&toks, "u")?)?),
             _ => return None,
